@@ -102,6 +102,11 @@ class NativeTemplate(Template):
         with :func:`ast.literal_eval`, the parsed value is returned.
         Otherwise, the string is returned.
         """
+        if self.environment.is_async:
+            import asyncio
+
+            return asyncio.run(self.render_async(*args, **kwargs))
+
         ctx = self.new_context(dict(*args, **kwargs))
 
         try:
